@@ -354,12 +354,15 @@ struct Expect {
     signed: bool,
 }
 
-/// Finishes the response and checks it with the independent decoder:
+/// Checks the finished response (the caller runs Writer::finish_with_mac in
+/// place: handing the Writer over by value costs CBMC its constants) with
+/// the independent decoder:
 /// question echoed, no answer/authority data, exactly one TSIG RR (last),
 /// its fields, and (for signed responses) its MAC and the MAC input.
 fn check_response(
-    response: Writer,
-    buf_ptr: *const [u8; 512],
+    n: usize,
+    ret_mac: Option<Box<[u8]>>,
+    buf: &[u8; 512],
     x: Expect,
     aw: &[u8],
     out: usize,
@@ -369,10 +372,6 @@ fn check_response(
     time: &[u8; 6],
     now: &[u8; 6],
 ) {
-    rec_reset();
-    let (n, ret_mac) = response.finish_with_mac();
-    // the Writer is gone; its buffer can be read again
-    let buf: &[u8; 512] = unsafe { &*buf_ptr };
     assert!(n >= 12 && n <= 160, "[C10] response length");
     let d = ref_decode_lim(buf, n, [1, 0, 0, 1], 4);
     assert!(d.wellformed && d.pointers_ok, "[C10] the response decodes completely");
@@ -452,37 +451,45 @@ fn check_response(
 }
 
 /// The response under construction, as Server::handle_message sets it up
-/// for a 17-octet query with root QNAME.
-fn start_response<'a>(buf: &'a mut [u8; 512], msg: &[u8; 17]) -> Writer<'a> {
-    let mut response = Writer::new(buf, 512).unwrap();
-    response.set_id(be16(msg, 0));
-    response.set_qr(true);
-    let question = Question {
-        qname: Name::root().to_owned(),
-        qtype: Qtype::from(be16(msg, 13)),
-        qclass: Qclass::from(be16(msg, 15)),
+/// for a 17-octet query with root QNAME (a macro: the Writer must be built
+/// where it is used, see check_response).
+macro_rules! start_response {
+    ($response:ident, $buf:ident, $msg:ident) => {
+        let mut $response = Writer::new(&mut $buf, 512).unwrap();
+        $response.set_id(be16(&$msg, 0));
+        $response.set_qr(true);
+        {
+            let question = Question {
+                qname: Name::root().to_owned(),
+                qtype: Qtype::from(be16(&$msg, 13)),
+                qclass: Qclass::from(be16(&$msg, 15)),
+            };
+            $response.add_question(&question).unwrap();
+            core::mem::forget(question);
+        }
     };
-    response.add_question(&question).unwrap();
-    core::mem::forget(question);
-    response
 }
 
-fn read_tsig<'a, const N: usize>(rd: &'a [u8; N], upcase: bool) -> ReadTsigRr<'a> {
-    let owner_wire: [u8; 3] = [1, if upcase { b'K' } else { b'k' }, 0];
-    let rr = ReadRr {
-        owner: Name::try_from_uncompressed_all(&owner_wire).unwrap(),
-        rr_type: Type::TSIG,
-        class: Qclass::ANY.into(),
-        ttl: Ttl::from(0),
-        rdata: Cow::Borrowed((&rd[..]).try_into().unwrap()),
+/// The ReadTsigRr of the request, through the real ReadTsigRr::try_from (a
+/// macro for the same reason as start_response).
+macro_rules! read_tsig {
+    ($tsig_rr:ident, $rd:ident, $upcase:ident) => {
+        let owner_wire: [u8; 3] = [1, if $upcase { b'K' } else { b'k' }, 0];
+        let rr = ReadRr {
+            owner: Name::try_from_uncompressed_all(&owner_wire).unwrap(),
+            rr_type: Type::TSIG,
+            class: Qclass::ANY.into(),
+            ttl: Ttl::from(0),
+            rdata: Cow::Borrowed((&$rd[..]).try_into().unwrap()),
+        };
+        let $tsig_rr = match ReadTsigRr::try_from(rr) {
+            Ok(t) => t,
+            Err(_) => {
+                assert!(false, "[C10] a well-formed TSIG RR is rejected");
+                return;
+            }
+        };
     };
-    match ReadTsigRr::try_from(rr) {
-        Ok(t) => t,
-        Err(_) => {
-            assert!(false, "[C10] a well-formed TSIG RR is rejected");
-            unreachable!()
-        }
-    }
 }
 
 /// Steps 1 and 2: algorithm and key lookup (no MAC is involved; the request
@@ -501,7 +508,7 @@ fn lookup_case<const N: usize>(alg: AlgSel, keysel: KeySel, upcase: bool) {
     let aw = alg_wire(alg);
     let mut rd = [0u8; N];
     fill_rdata::<N>(&mut rd, aw, upcase, &time, fudge, &mac, oid, req_error);
-    let tsig_rr = read_tsig::<N>(&rd, upcase);
+    read_tsig!(tsig_rr, rd, upcase);
 
     let mut keys = TsigKeyMap::new();
     let other_alg = if alg == AlgSel::Sha1 { Algorithm::HmacSha256 } else { Algorithm::HmacSha1 };
@@ -521,8 +528,7 @@ fn lookup_case<const N: usize>(alg: AlgSel, keysel: KeySel, upcase: bool) {
     }
 
     let mut buf = [0u8; 512];
-    let buf_ptr: *const [u8; 512] = &buf;
-    let mut response = start_response(&mut buf, &msg);
+    start_response!(response, buf, msg);
     rec_reset();
     let now_ts = TimeSigned::from(now);
     let found_alg = find_tsig_algorithm_or_write_error(&tsig_rr, now_ts, &mut response);
@@ -543,12 +549,13 @@ fn lookup_case<const N: usize>(alg: AlgSel, keysel: KeySel, upcase: bool) {
             tsig_error: TE_BADKEY,
             signed: false,
         };
-        check_response(response, buf_ptr, x, aw, 32, &key, &mac, oid, &time, &now);
+        rec_reset();
+        let (n, ret_mac) = response.finish_with_mac();
+        check_response(n, ret_mac, &buf, x, aw, 32, &key, &mac, oid, &time, &now);
     } else {
         // nothing has been decided yet: no TSIG RR, RCODE untouched
         let n = response.finish();
-        let b: &[u8; 512] = unsafe { &*buf_ptr };
-        assert!(n == 17 && b[3] & 0xf == 0 && be16(b, 10) == 0, "[C10] a successful lookup leaves the response untouched");
+        assert!(n == 17 && buf[3] & 0xf == 0 && be16(&buf, 10) == 0, "[C10] a successful lookup leaves the response untouched");
     }
     kani::cover!(true, "lookup decided");
     core::mem::forget(tsig_rr);
@@ -574,13 +581,12 @@ fn verify_case<const L: usize, const N: usize>(alg: AlgSel, accept: bool, clock:
     let aw = alg_wire(alg);
     let mut rd = [0u8; N];
     fill_rdata::<N>(&mut rd, aw, upcase, &time, fudge, &mac, oid, req_error);
-    let tsig_rr = read_tsig::<N>(&rd, upcase);
+    read_tsig!(tsig_rr, rd, upcase);
     let this_alg = if alg == AlgSel::Sha1 { Algorithm::HmacSha1 } else { Algorithm::HmacSha256 };
     let out = if alg == AlgSel::Sha1 { 20 } else { 32 };
 
     let mut buf = [0u8; 512];
-    let buf_ptr: *const [u8; 512] = &buf;
-    let mut response = start_response(&mut buf, &msg);
+    start_response!(response, buf, msg);
     rec_reset();
     rec_force(if accept { 1 } else { 2 });
     let verified = verify_tsig_and_write_tsig_rr(&tsig_rr, &msg, this_alg, &key, TimeSigned::from(now), &mut response);
@@ -623,7 +629,9 @@ fn verify_case<const L: usize, const N: usize>(alg: AlgSel, accept: bool, clock:
         let (_, made, _) = rec_fetch(&mut got);
         assert!(made == 0, "[C10] no MAC is computed for an unacceptable MAC size");
     }
-    check_response(response, buf_ptr, x, aw, out, &key, &mac, oid, &time, &now);
+    rec_reset();
+    let (n, ret_mac) = response.finish_with_mac();
+    check_response(n, ret_mac, &buf, x, aw, out, &key, &mac, oid, &time, &now);
     kani::cover!(true, "exchange completed");
     core::mem::forget(tsig_rr);
 }
